@@ -101,7 +101,7 @@ if _fault:
             from bio2zarr import core as _core
 
             if _core._progress_counter is not None:
-                _core._progress_counter.get_lock().acquire()
+                _core._progress_counter.get_lock().acquire(timeout=3)
             os._exit(3)
         if _kind == "sigterm":
             import signal
